@@ -8,6 +8,7 @@ import (
 
 	"golang.org/x/tools/go/ssa"
 
+	"saoverif/internal/cfgx"
 	"saoverif/internal/core"
 	"saoverif/internal/guard"
 )
@@ -265,6 +266,8 @@ func checkC14(r *core.Run) {
 	}
 	ruleShardPledgeBooked(r)
 	ruleReleaseTerm(r)
+	r.Rule("T-accum-scope: in Renew the pool's total is moved by a per-data-model total that is reset for every data model (not carried across the data-model loop)")
+	ruleAccumScope(r, "T-accum-scope", "sao/keeper.msgServer.Renew")
 	r.Rule("T-book-pair: a shard is booked on a market worker (WorkerAppend) only as a first booking (its status is not yet completed) or after a WorkerRelease on every path (re-booking / hand-over): no shard is counted twice")
 	ruleBookPair(r, "market/keeper.Keeper.WorkerAppend", "market/keeper.Keeper.WorkerRelease", 3)
 }
@@ -629,4 +632,104 @@ func ruleAppendFresh(r *core.Run, prop string) {
 	}
 	_ = prop
 	r.Floor("append_fresh_sites", n, 3)
+}
+
+// ruleAccumScope (T-accum-scope): a running total that is added to a persisted
+// aggregate inside a loop must not itself be carried around that same loop
+// (accumulated across its iterations without being reset): otherwise the
+// contributions of earlier iterations are added to the aggregate again in every
+// later iteration. Recognised form: store X.f := Add(X.f', acc) inside loop L
+// where acc is a φ at the header of a loop that contains the store.
+func ruleAccumScope(r *core.Run, id string, fnNames ...string) {
+	n := 0
+	for _, name := range fnNames {
+		f := r.Func(id, name)
+		if f == nil {
+			continue
+		}
+		loops := cfgx.Loops(f)
+		res := r.Resolver(f)
+		cnt := 0
+		for _, b := range f.Blocks {
+			for _, ins := range b.Instrs {
+				st, ok := ins.(*ssa.Store)
+				if !ok {
+					continue
+				}
+				fa, ok := st.Addr.(*ssa.FieldAddr)
+				if !ok {
+					continue
+				}
+				call, ok := st.Val.(*ssa.Call)
+				if !ok {
+					continue
+				}
+				cn, _ := res.CalleeName(&call.Call)
+				if !strings.HasSuffix(cn, ".Add") && !strings.HasSuffix(cn, ".AddAmount") && !strings.HasSuffix(cn, ".Sub") && !strings.HasSuffix(cn, ".SubAmount") {
+					continue
+				}
+				var inLoops []*cfgx.Loop
+				for _, l := range loops {
+					if l.Body[b] {
+						inLoops = append(inLoops, l)
+					}
+				}
+				if len(inLoops) == 0 {
+					continue
+				}
+				n++
+				cnt++
+				field := fieldPath(fa)
+				key := core.Key(id, name, fmt.Sprintf("%s update in loop#%d", field, cnt))
+				// operands (one nested level through conversions / field reads of the operand)
+				var bad *ssa.Phi
+				var visit func(v ssa.Value, d int)
+				visit = func(v ssa.Value, d int) {
+					if d > 3 || bad != nil {
+						return
+					}
+					switch x := v.(type) {
+					case *ssa.Phi:
+						for _, l := range inLoops {
+							if x.Block() == l.Header {
+								// carried around a loop that contains the update
+								bad = x
+							}
+						}
+						if bad == nil {
+							// the value leaving an inner accumulation loop: look at what it was started from
+							for _, e := range x.Edges {
+								if _, isPhi := e.(*ssa.Phi); isPhi {
+									visit(e, d+1)
+								}
+							}
+						}
+					case *ssa.Field:
+						visit(x.X, d+1)
+					case *ssa.ChangeType:
+						visit(x.X, d+1)
+					case *ssa.Convert:
+						visit(x.X, d+1)
+					case *ssa.Call:
+						for _, a := range x.Call.Args {
+							visit(a, d+1)
+						}
+					}
+				}
+				args := call.Call.Args
+				for i, a := range args {
+					if i == 0 {
+						continue // receiver: the aggregate's previous value
+					}
+					visit(a, 0)
+				}
+				if bad == nil {
+					r.Discharge(id, key, r.P.Pos(st.Pos()), "the amount added inside the loop is not a total carried around that loop")
+				} else {
+					r.Violate(id, key, r.P.Pos(st.Pos()), fmt.Sprintf("%s adds a running total (%s) to %s inside a loop around which that total is itself carried without being reset: what earlier iterations contributed is added again in every later iteration, so the aggregate exceeds the sum of the individual changes", name, bad.Comment, field))
+				}
+			}
+		}
+	}
+	r.Floor("aggregate_updates_in_loops", n, 1)
 }
